@@ -237,98 +237,113 @@ def opEntry (sp : Bytes) : Int × Nat :=
   | some e => e
   | none => (tokInvalid, 0)   -- spelling no longer assigned in lexer.go; caught by `lexOps_cover` (Props/C09)
 
-/-- finish a token: consume `n` bytes from the entry state, set l.token (or keep it) and l.tokenType -/
-def emit (s : LState) (n : Nat) (tok : Option Bytes) (ty : Int) (lv : LVal) (inStr : Option Bool := none) : Int × LVal × LState :=
-  (ty, lv, { s with offset := s.offset + n, rest := s.rest.drop n,
-                    token := tok.getD s.token, tokenType := ty,
-                    inString := inStr.getD s.inString })
+/-- what one call of Lex decides once `next` has returned the byte `ch` with `r` unread (or, in
+    interpolation mode, with `r` = the whole unread source): how many FURTHER bytes of `r` it
+    consumes, the new `l.token` (none = left unchanged: Lex does not assign it for single-byte
+    tokens and for tokStringStart / tokStringQuery / tokStringEnd), the token code, `*lval`, and the
+    new `l.inString` (none = unchanged). -/
+structure Scan where
+  n : Nat
+  token : Option Bytes
+  ty : Int
+  lval : LVal := {}
+  inString : Option Bool := none
+  deriving Repr, DecidableEq
 
-/-- the string part of Lex: `scanString(start)`; `pre` = l.offset - start (1 after an opening quote
-    was consumed by `next`, 0 in interpolation mode), `w` = bytes consumed before l.offset. -/
-def lexString (s : LState) (w pre : Nat) : Int × LVal × LState :=
-  let r := s.rest.drop w
-  -- l.source[start : l.offset + k]
-  let slice (k : Nat) : Bytes := (s.rest.drop (w - pre)).take (pre + k)
+/-- `scanString(start)`; `open_ = some '"'` when Lex has just consumed the opening quote
+    (start = l.offset - 1), `none` in interpolation mode (start = l.offset).  The token text
+    `l.source[start : l.offset]` is the opening quote (if any) followed by a prefix of `r`. -/
+def scanStringTok (inString : Bool) (open_ : Option UInt8) (r : Bytes) : Scan :=
+  let slice (k : Nat) : Bytes := match open_ with | some q => q :: r.take k | none => r.take k
   match scanString r 0 with
-  | .unterminated => emit s s.rest.length (some []) tokUnterminatedString {}
-  | .invalidEscape e len => emit s (w + e) (some ((r.take e).drop (e - len))) tokInvalidEscapeSequence {}
+  | .unterminated => { n := r.length, token := some [], ty := tokUnterminatedString }
+  | .invalidEscape e len => { n := e, token := some ((r.take e).drop (e - len)), ty := tokInvalidEscapeSequence }
   | .interp k =>
-    if !s.inString then emit s w none tokStringStart {} (some true)
-    else if k == 0 then emit s (w + 2) none tokStringQuery {} (some false)
-    else emit s (w + k) (some (slice k)) tokString { token := unquoteStr (r.take k) }
+    if !inString then { n := 0, token := none, ty := tokStringStart, inString := some true }
+    else if k == 0 then { n := 2, token := none, ty := tokStringQuery, inString := some false }
+    else { n := k, token := some (slice k), ty := tokString, lval := { token := unquoteStr (r.take k) } }
   | .quote k =>
-    if !s.inString then emit s (w + k + 1) (some (slice (k + 1))) tokString { token := unquoteStr (r.take k) }
-    else if k > 0 then emit s (w + k) (some (slice k)) tokString { token := unquoteStr (r.take k) }
-    else emit s (w + 1) none tokStringEnd {} (some false)
+    if !inString then { n := k + 1, token := some (slice (k + 1)), ty := tokString, lval := { token := unquoteStr (r.take k) } }
+    else if k > 0 then { n := k, token := some (slice k), ty := tokString, lval := { token := unquoteStr (r.take k) } }
+    else { n := 1, token := none, ty := tokStringEnd, inString := some false }
+
+/-- the `switch` of Lex on the byte `ch` returned by `next()`, `r` = the unread source after it -/
+def scanTok (inString : Bool) (ch : UInt8) (r : Bytes) : Scan :=
+  let tokText (n : Nat) : Bytes := ch :: r.take n
+  let single : Scan := { n := 0, token := none, ty := ch.toNat }
+  let op (sp : Bytes) : Scan :=
+    let (t, o) := opEntry sp
+    { n := sp.length - 1, token := some sp, ty := t, lval := { operator := o } }
+  let number (st : NumState) : Scan :=
+    let (n, ok) := scanNumber st r
+    if ok then { n := n, token := some (tokText n), ty := tokNumber, lval := { token := tokText n } }
+    else { n := n, token := some (tokText n), ty := tokInvalid }
+  if isIdent ch false then
+    let (n, isModule) := scanIdentOrModule r
+    let t := tokText n
+    let ty := if isModule then tokModuleIdent else (bytesLookup t keywords).getD tokIdent
+    { n := n, token := some t, ty := ty, lval := { token := t } }
+  else if isNumber ch then number .lead
+  else if ch == 46 then
+    let c := peek r
+    if c == 46 then op [46, 46]
+    else if isIdent c false then
+      let n := identLen r
+      { n := n, token := some (tokText n), ty := tokIndex, lval := { token := r.take n } }
+    else if isNumber c then number .float
+    else single
+  else if ch == 36 then
+    if isIdent (peek r) false then
+      let (n, isModule) := scanIdentOrModule r
+      let t := tokText n
+      { n := n, token := some t, ty := if isModule then tokModuleVariable else tokVariable, lval := { token := t } }
+    else single
+  else if ch == 124 then (if peek r == 61 then op [124, 61] else single)
+  else if ch == 63 then
+    match r with
+    | 47 :: 47 :: _ => op [63, 47, 47]
+    | _ => single
+  else if ch == 43 then (if peek r == 61 then op [43, 61] else single)
+  else if ch == 45 then (if peek r == 61 then op [45, 61] else single)
+  else if ch == 42 then (if peek r == 61 then op [42, 61] else single)
+  else if ch == 47 then
+    if peek r == 61 then op [47, 61]
+    else if peek r == 47 then (if peek (r.drop 1) == 61 then op [47, 47, 61] else op [47, 47])
+    else single
+  else if ch == 37 then (if peek r == 61 then op [37, 61] else single)
+  else if ch == 61 then (if peek r == 61 then op [61, 61] else op [61])
+  else if ch == 33 then (if peek r == 61 then op [33, 61] else single)
+  else if ch == 62 then (if peek r == 61 then op [62, 61] else op [62])
+  else if ch == 60 then (if peek r == 61 then op [60, 61] else op [60])
+  else if ch == 64 then
+    if isIdent (peek r) true then
+      let n := identLen r
+      { n := n, token := some (tokText n), ty := tokFormat, lval := { token := tokText n } }
+    else single
+  else if ch == 34 then scanStringTok inString (some ch) r
+  else if ch == 0 then { n := 0, token := some [0], ty := tokInvalid }   -- `case 0: l.token = "\x00"; return tokInvalid`
+  else if ch ≥ 128 then
+    -- utf8.DecodeRuneInString(l.source[l.offset-1:]); l.offset += size - 1; l.token = string(r)
+    let (rr, size, _) := Utf8.decodeRune (ch :: r)
+    { n := size - 1, token := some (Utf8.encodeRune rr), ty := ch.toNat }
+  else single
+
+/-- commit a scan: consume `w` bytes (what `next` read, including `ch`) plus `sc.n`, update
+    l.token / l.tokenType (the deferred assignment) / l.inString -/
+def commit (s : LState) (w : Nat) (sc : Scan) : Int × LVal × LState :=
+  (sc.ty, sc.lval, { s with offset := s.offset + (w + sc.n), rest := s.rest.drop (w + sc.n),
+                            token := sc.token.getD s.token, tokenType := sc.ty,
+                            inString := sc.inString.getD s.inString })
 
 /-- `Lex`: returns the character code (the Go return value), the semantic value, the new state -/
 def lex (s : LState) : Int × LVal × LState :=
-  if s.rest.isEmpty then emit s 0 (some []) eof {}
-  else if s.inString then lexString s 0 0
+  if s.rest.isEmpty then commit s 0 { n := 0, token := some [], ty := eof }
+  else if s.inString then commit s 0 (scanStringTok true none s.rest)
   else
     match next s.rest with
     | .panic => (eof, {}, { s with panicked := true, tokenType := eof })
-    | .eof n => emit s n (some []) eof {}
-    | .char ch w =>
-      let r := s.rest.drop w
-      let tokText (n : Nat) : Bytes := ch :: r.take n
-      let single : Int × LVal × LState := emit s w none ch.toNat {}
-      let op (sp : Bytes) : Int × LVal × LState :=
-        let (t, o) := opEntry sp
-        emit s (w + sp.length - 1) (some sp) t { operator := o }
-      let number (st : NumState) : Int × LVal × LState :=
-        let (n, ok) := scanNumber st r
-        if ok then emit s (w + n) (some (tokText n)) tokNumber { token := tokText n }
-        else emit s (w + n) (some (tokText n)) tokInvalid {}
-      if isIdent ch false then
-        let (n, isModule) := scanIdentOrModule r
-        let t := tokText n
-        let ty := if isModule then tokModuleIdent else (bytesLookup t keywords).getD tokIdent
-        emit s (w + n) (some t) ty { token := t }
-      else if isNumber ch then number .lead
-      else if ch == 46 then
-        let c := peek r
-        if c == 46 then op [46, 46]
-        else if isIdent c false then
-          let n := identLen r
-          emit s (w + n) (some (tokText n)) tokIndex { token := r.take n }
-        else if isNumber c then number .float
-        else single
-      else if ch == 36 then
-        if isIdent (peek r) false then
-          let (n, isModule) := scanIdentOrModule r
-          let t := tokText n
-          emit s (w + n) (some t) (if isModule then tokModuleVariable else tokVariable) { token := t }
-        else single
-      else if ch == 124 then (if peek r == 61 then op [124, 61] else single)
-      else if ch == 63 then
-        match r with
-        | 47 :: 47 :: _ => op [63, 47, 47]
-        | _ => single
-      else if ch == 43 then (if peek r == 61 then op [43, 61] else single)
-      else if ch == 45 then (if peek r == 61 then op [45, 61] else single)
-      else if ch == 42 then (if peek r == 61 then op [42, 61] else single)
-      else if ch == 47 then
-        if peek r == 61 then op [47, 61]
-        else if peek r == 47 then (if peek (r.drop 1) == 61 then op [47, 47, 61] else op [47, 47])
-        else single
-      else if ch == 37 then (if peek r == 61 then op [37, 61] else single)
-      else if ch == 61 then (if peek r == 61 then op [61, 61] else op [61])
-      else if ch == 33 then (if peek r == 61 then op [33, 61] else single)
-      else if ch == 62 then (if peek r == 61 then op [62, 61] else op [62])
-      else if ch == 60 then (if peek r == 61 then op [60, 61] else op [60])
-      else if ch == 64 then
-        if isIdent (peek r) true then
-          let n := identLen r
-          emit s (w + n) (some (tokText n)) tokFormat { token := tokText n }
-        else single
-      else if ch == 34 then lexString s w 1
-      else if ch == 0 then emit s w (some [0]) tokInvalid {}   -- `case 0: l.token = "\x00"; return tokInvalid`
-      else if ch ≥ 128 then
-        -- utf8.DecodeRuneInString(l.source[l.offset-1:]); l.offset += size - 1; l.token = string(r)
-        let (rr, size, _) := Utf8.decodeRune (ch :: r)
-        emit s (w + size - 1) (some (Utf8.encodeRune rr)) ch.toNat {}
-      else single
+    | .eof n => commit s n { n := 0, token := some [], ty := eof }
+    | .char ch w => commit s w (scanTok s.inString ch (s.rest.drop w))
 
 /-- `(*lexer).Error`: the ParseError it builds (offset, token, tokenType) -/
 structure ParseError where
